@@ -378,6 +378,20 @@ func mutateText(r *rand.Rand, s string) (string, string) {
 	}
 }
 
+type c07Blob string
+type c07Text []byte
+type c07Stringer struct{ S string }
+
+func (s c07Stringer) String() string { return s.S }
+
+// c07HostileKinds: Go values of named and composite kinds whose default formatting contains quotes, backslashes, line
+// breaks and control characters.
+func c07HostileKinds() []interface{} {
+	nasty := "say \"hi\" to c:\\temp\nnext\tline \x01 end"
+	return []interface{}{c07Blob(nasty), c07Text(nasty), c07Stringer{nasty}, &c07Stringer{nasty}, struct{ S string }{nasty}, map[string]interface{}{"k\"ey": nasty},
+		[]byte(nasty), ggql.Symbol("A\"B\\"), fmt.Errorf("%s", nasty), []string{nasty}, map[string]string{nasty: nasty}, [2]string{nasty, "\""}, complex(1, 2), 'x', uintptr(7)}
+}
+
 func runC07(c *run.Ctx) {
 	c.Rule = "request mix (valid tuples, tuples with injected resolver failures and uncoercible leaves, unknown fields/arguments, unknown operation names, bad variable maps, textually corrupted documents) " +
 		"each printed in one of 12 layouts (single line, one selection per line, one token per line, CRLF, comments, commas, BOM, tabs); monitors on every response: envelope rules, location-in-document and " +
@@ -409,6 +423,31 @@ func runC07(c *run.Ctx) {
 				}
 				n2 := g.Nodes[site.node.ID]
 				n2.F[site.field] = setLeaf(n2.F[site.field], site.idx, bad)
+			}
+		}
+		if i%3 == 1 {
+			// leaves of ANY type (custom scalars, strings, ids, enums too) holding Go values of kinds the writer has no case
+			// for, full of characters JSON escapes: whatever ggql makes of them, the response still has to be JSON
+			if ls := c05AllLeafSites(ec.S, ec.G); len(ls) > 0 {
+				g = cloneGraph(ec.G)
+				var custom []leafSite
+				for _, l := range ls {
+					if l.typ == "Custom" {
+						custom = append(custom, l)
+					}
+				}
+				for m := 0; m < 1+r.Intn(3); m++ {
+					site := ls[r.Intn(len(ls))]
+					if m == 0 && len(custom) > 0 {
+						// (a scalar the application declares has no coercion rules of ggql's own: the most permissive position)
+						site = custom[r.Intn(len(custom))]
+					}
+					hv := c07HostileKinds()
+					n2 := g.Nodes[site.node.ID]
+					n2.F[site.field] = setLeaf(n2.F[site.field], site.idx, hv[r.Intn(len(hv))])
+					c.Bucket("unexpected_go_kind_planted_at_leaf_of_type", site.typ)
+				}
+				c.Count("graphs_with_leaves_of_unexpected_go_kinds", 1)
 			}
 		}
 		h, err := back.Build(kind, ec.S, ec.SDL, g)
